@@ -1451,6 +1451,24 @@ def _r07f(chk, repo) -> None:
         st = cfg.stmt_of(c)
         ps = parts_of(c.args[0], st)
         if ps is None:
+            # cut out of the source instead of rebuilt: the end of a field is not its first closing brace
+            raw_e = c.args[0]
+            if isinstance(raw_e, ast.Name):
+                os_ = origins(cfg, raw_e, st)
+                raw_e = os_[0].expr if len(os_) == 1 and os_[0].kind == "expr" else raw_e
+            if isinstance(raw_e, ast.Subscript) and isinstance(raw_e.slice, ast.Slice) and raw_e.slice.upper is not None:
+                ups = [raw_e.slice.upper]
+                if isinstance(ups[0], ast.Name):
+                    ups = [o.expr for o in origins(cfg, ups[0], st) if o.kind == "expr"]
+                brace = [x for u in ups for x in ast.walk(u) if isinstance(x, ast.Call) and last_attr(x) in ("index", "find") and x.args and isinstance(x.args[0], ast.Constant) and x.args[0].value == "}"]
+                if brace:
+                    chk.fail(
+                        "R07f", c,
+                        f"the raw text of a replacement field is cut from the source up to the first '}}' after its start ({short(brace[0], 40)}): a format spec may itself contain fields "
+                        "(`{amount:{width}}`), so the token comes out short, the source index drifts and the slices no longer tile the source",
+                        detail="python templater: field token ends at the field's own closing brace",
+                    )
+                    continue
             raise AnalysisError(f"R07f: cannot read how the templated slice's raw text `{short(c.args[0], 50)}` is put together; re-confirm the anchor by hand")
         seq = [p for p in ps if p in ("{", "}", "!", ":") or p.startswith("<")]
         want = ["{", "<field_name>", "!", "<conversion>", ":", "<format_spec>", "}"]
